@@ -128,9 +128,11 @@ PROPS = {
         assumptions=["durations are modelled as natural numbers of nanoseconds"],
     ),
     "C15": dict(
-        audit_modules=["RodbusModel.Audit.C15"],
+        audit_modules=["RodbusModel.Audit.C15", "RodbusModel.Audit.C15Net"],
         required_theorems=["Rodbus.C15.tracker_bound", "Rodbus.C15.evicts_oldest", "Rodbus.C15.remove_absent",
-                           "Rodbus.C15.fresh_id"],
+                           "Rodbus.C15.fresh_id", "Rodbus.C15Net.open_bound", "Rodbus.C15Net.isolation",
+                           "Rodbus.C15Net.shutdown_closes_all", "Rodbus.C15Net.evicted_is_oldest",
+                           "Rodbus.C15Net.refused_after_shutdown"],
         suites=[dict(gen="trk", n=(3000, 200000),
                      exhaustive="all op sequences of length <= 4 (5 thorough) over {add, remove 0, remove 1, remove 2} for max_sessions 0..4"),
                 dict(gen="net", n=(60, 1500), jobs=16)],
@@ -149,9 +151,10 @@ PROPS = {
         assumptions=["eviction in the real server is asynchronous: the evicted task ends at its next poll"],
     ),
     "C16": dict(
-        audit_modules=["RodbusModel.Audit.C16"],
+        audit_modules=["RodbusModel.Audit.C16", "RodbusModel.Audit.C15Net"],
         required_theorems=["Rodbus.C16.matches_spec", "Rodbus.C16.wildcard_parse_iff", "Rodbus.C16.wrong_field_count_rejected",
-                           "Rodbus.C16.parsed_fields_are_octets", "Rodbus.C16.splitDots_join"],
+                           "Rodbus.C16.parsed_fields_are_octets", "Rodbus.C16.splitDots_join",
+                           "Rodbus.C15Net.accept_iff_matches", "Rodbus.C15Net.rejected_no_effect"],
         suites=[dict(gen="flt", n=(4000, 300000)),
                 dict(gen="fltm", n=(3000, 200000),
                      exhaustive="all 4^4 wildcard patterns over {*,0,127,255} x 5 peers (3^4+1 peers thorough)"),
@@ -275,5 +278,57 @@ PROPS = {
         rule="cases = corpus (witnesses of the repaired version table first) + the grid; every handshake is non-trivial; distinct = distinct case line",
         assumptions=["system clock between 2021 and 2069 (expired / not-yet-valid test certificates)",
                      "the TLS library negotiates the highest version enabled by both sides"],
+    ),
+    "C07": dict(
+        audit_modules=["RodbusModel.Audit.C07"],
+        required_theorems=["Rodbus.C07.session_outcome", "Rodbus.C07.shutdown_honoured", "Rodbus.C07.reply_fits_writer",
+                           "Rodbus.C07.range_addresses_fit", "Rodbus.C07.reader_errors_are_protocol_errors",
+                           "Rodbus.no_spurious_eof", "Rodbus.C06.no_spurious_eof", "Rodbus.C06.peek_in_bounds"],
+        suites=[dict(gen="srv_fuzz", n=(3000, 400000)), dict(gen="rdr_fuzz", n=(3000, 400000)),
+                dict(gen="srv_tcp", n=(800, 50000)), dict(gen="srv_rtu", n=(800, 50000))],
+        level_text="Proof for the modelled logic: bounds at the arithmetic/indexing sites mirrored from the Rust code (range_addresses_fit, "
+                   "indexed_indices_fit, mbap_length_field_fits, byte_counts_fit, read_buffer_indices_in_bounds, peek_in_bounds, "
+                   "reply_fits_writer), no internal error and no spurious EOF in any reachable reader state of either framer (so nothing can be "
+                   "returned without consuming input), session_outcome (every byte stream ends a server session with EOF, transport error, "
+                   "shutdown or a *protocol* framing error - no other outcome), shutdown_honoured. Exploration for what is not modelled (logging / "
+                   "Display paths, tokio, OS): the production server session, framers and client loop run under catch_unwind with overflow checks "
+                   "and debug assertions on, cycling through all 36 decode levels with a formatting tracing subscriber installed, on grammar-aware "
+                   "mutations of valid traffic and raw random bytes, each followed by a shutdown command that must still be honoured; any 'panic' or "
+                   "'hung' outcome or disagreement with the model's outcome is a violation.",
+        level_note="Partial by nature: absence of panics in code that is not modelled (tracing/Display formatting, tokio, the OS, the TLS stack) "
+                   "rests on the differential runs, which are tests. Finding F13 (u16 overflow panic in AddressIterator for ranges ending at 65535) "
+                   "was found by these runs and is fixed.",
+        technique="Lean 4 bounds/progress/outcome lemmas over the models + fuzz-style differential runs under catch_unwind at all decode levels",
+        classify=lambda c, i: ([("end=" + i.split("end=")[1]) if "end=" in i else ("rdr:" + (i.rsplit(";", 1)[-1][:10] if i != "-" else "blocked")),
+                               "level=" + c.split(" ")[2]]),
+        nontrivial=lambda c, i: i not in ("-", "") and "tx=- calls=- " not in i or "end=bf" in i or i.startswith("E") or ";E" in i,
+        finding_key=no_key,
+        rule="cases = seeded streams: raw random bytes (1/5) or 1..10 frames of valid / malformed requests with bad CRC, bad protocol id, "
+             "wrong length field, bit flips, truncation; random unit maps; every case at a decode level cycling through all 36; shutdown "
+             "command appended; plus the C01 session generators; distinct = distinct case line; non-trivial = the session produced output or "
+             "ended with a framing error",
+        assumptions=["harness built with overflow-checks and debug-assertions on (profile.dev)"],
+    ),
+    "C20": dict(
+        audit_modules=["RodbusModel.Audit.C20"],
+        required_theorems=["Rodbus.C20.decode_noninterference_server", "Rodbus.C20.level_change_transparent_server",
+                           "Rodbus.C20.level_changes_transparent_server"],
+        suites=[dict(gen="dec_srv", n=(150, 6000)), dict(gen="dec_rdr", n=(150, 6000))],
+        level_text="Proof: decode_noninterference_server (the session model's bytes, application calls, final states and end kind do not depend on "
+                   "the decode level: the level only selects log lines), level_change_transparent_server / level_changes_transparent_server (a "
+                   "ChangeDecoding command inserted at any position - also in the middle of a partially received frame - changes nothing; no buffered "
+                   "byte is lost). Tie: every case of the C01-C06 generators is replayed at the lowest level, the highest level and a random one, and "
+                   "with level changes injected at random positions of the script, with a formatting tracing subscriber installed; all variants must "
+                   "equal the (level-independent) model output.",
+        level_note="The theorems are immediate because the model consults the level only for log lines - that this mirrors the code (tracing calls "
+                   "guarded by decode.*.enabled()) is what the paired runs check. Client-side non-interference: see the cl suite variants (added "
+                   "with the client model).",
+        technique="Lean 4 non-interference theorems over the session model + paired differential runs at different decode levels",
+        classify=lambda c, i: ["level=" + c.split(" ")[2], "injected" if ("!d" in c.split(" ")[-1]) else "plain"],
+        nontrivial=lambda c, i: i not in ("-", "") and "tx=- calls=- " not in i,
+        finding_key=no_key,
+        rule="cases = for each base case of the srv / rdr generators: the case at d000, d322, a random level, and two copies with 1..3 level "
+             "changes inserted at random script positions; distinct = distinct case line; non-trivial = produced a reply, a call or a frame",
+        assumptions=["a tracing subscriber that formats every event into a sink is installed in the harness"],
     ),
 }
